@@ -271,8 +271,9 @@ fn cov_strategy() -> impl Strategy<Value = CovCase> {
             (
                 Just((f32_, vars, obs, layout)),
                 proptest::collection::vec(float_data(f32_, obs), vars),
-                // common power-of-two scale of the whole matrix (covariance scales with its square)
-                prop_oneof![6 => Just(0i32), 1 => Just(300i32), 1 => Just(-300i32), 1 => Just(120i32), 1 => Just(-120i32)],
+                // common power-of-two scale of the whole matrix (covariance scales with its square);
+                // 7 = every variable gets its own scale in 2^-400..2^400
+                prop_oneof![6 => Just(0i32), 1 => Just(300i32), 1 => Just(-300i32), 1 => Just(120i32), 1 => Just(-120i32), 2 => Just(7i32)],
                 ddof,
                 0usize..8,
                 prop_oneof![Just(2.0f64), Just(0.25f64), Just(1024.0f64), 0.1f64..10.0],
@@ -280,10 +281,15 @@ fn cov_strategy() -> impl Strategy<Value = CovCase> {
             )
         })
         .prop_map(|((f32_, vars, obs, layout), rows, scale, ddof, scale_row, a, b)| {
+            let per_row: Vec<i32> = (0..vars).map(|i| if scale == 7 { ((crate::core::splitmix64(i as u64 * 77 + obs as u64) % 801) as i32) - 400 } else { scale }).collect();
             let data: Vec<u64> = rows
                 .into_iter()
-                .flatten()
-                .map(|v| {
+                .enumerate()
+                .flat_map(|(i, r)| {
+                    let sc = per_row[i];
+                    r.into_iter().map(move |v| (v, sc)).collect::<Vec<_>>()
+                })
+                .map(|(v, scale)| {
                     if scale == 0 {
                         v as u64
                     } else if f32_ {
@@ -324,6 +330,12 @@ pub enum Own3 {
 
 #[derive(Clone, Debug, Serialize, Deserialize, Hash)]
 pub struct DevCase {
+    /// floats only: common power-of-two scale of both operands
+    #[serde(default)]
+    pub scale_pow: i32,
+    /// floats only: 0 = use `maxv`; 1 = peak chosen next to the r.m.s. error (PSNR near 0 dB)
+    #[serde(default)]
+    pub maxv_mode: u8,
     pub ty: DTy,
     pub shape: Vec<usize>,
     pub layout_a: LayoutSpec,
@@ -407,6 +419,27 @@ fn rel_close(got: f64, want: f64, rel: f64) -> bool {
     (got - want).abs() <= rel * want.abs() + f64::MIN_POSITIVE
 }
 
+/// The derived measures are documented functions of the routine's OWN base results:
+/// checked at f64 accuracy whatever the element type.
+fn relation_checks(n: usize, sq_own: f64, l1_own: f64, maxv: f64, d: (f64, f64, f64, f64, f64), what: &str) -> Result<(), Failure> {
+    let (l2, mae, mse, rmse, psnr) = d;
+    let u = 2f64.powi(-53);
+    let nn = n as f64;
+    let near = |got: f64, want: f64, ulps: f64| got == want || (got.is_nan() && want.is_nan()) || (got - want).abs() <= ulps * u * want.abs() + f64::MIN_POSITIVE;
+    ensure!(near(l2, sq_own.sqrt(), 4.0), "wrong-value", "{}: l2_dist = {:e} is not sqrt(sq_l2_dist) = {:e} (sq_l2_dist returned {:e})", what, l2, sq_own.sqrt(), sq_own);
+    ensure!(near(mae, l1_own / nn, 4.0), "wrong-value", "{}: mean_abs_err = {:e} is not l1_dist / n = {:e} (l1_dist returned {:e})", what, mae, l1_own / nn, l1_own);
+    ensure!(near(mse, sq_own / nn, 4.0), "wrong-value", "{}: mean_sq_err = {:e} is not sq_l2_dist / n = {:e} (sq_l2_dist returned {:e})", what, mse, sq_own / nn, sq_own);
+    ensure!(near(rmse, mse.sqrt(), 4.0), "wrong-value", "{}: root_mean_sq_err = {:e} is not sqrt(mean_sq_err) = {:e}", what, rmse, mse.sqrt());
+    if mse > 0.0 && mse.is_finite() && maxv != 0.0 && (maxv * maxv).is_finite() && maxv * maxv > f64::MIN_POSITIVE {
+        let ratio = maxv * maxv / mse;
+        let want = 10.0 * ratio.log10();
+        // one rounding of the ratio moves log10 by ~u/ln(10); log10 itself and the product err by a few ulp
+        let tol = 10.0 * 4.0 * u / std::f64::consts::LN_10 + 8.0 * u * want.abs();
+        ensure!((psnr - want).abs() <= tol, "tolerance", "{}: peak_signal_to_noise_ratio = {:e} is not 10 log10(maxv^2 / mean_sq_err) = {:e} (difference {:e}, allowed {:e}; maxv {:e}, mse {:e})", what, psnr, want, (psnr - want).abs(), tol, maxv, mse);
+    }
+    Ok(())
+}
+
 fn derived_checks(n: usize, sq: f64, l1: f64, rel_sq: f64, rel_l1: f64, maxv: f64, d: (f64, f64, f64, f64, f64), what: &str) -> Result<(), Failure> {
     let (l2, mae, mse, rmse, psnr) = d;
     let u = 2f64.powi(-53);
@@ -415,7 +448,7 @@ fn derived_checks(n: usize, sq: f64, l1: f64, rel_sq: f64, rel_l1: f64, maxv: f6
     ensure!(rel_close(mae, l1 / nn, rel_l1 + 4.0 * u), "tolerance", "{}: mean_abs_err = {:e}, exact l1/n = {:e}", what, mae, l1 / nn);
     ensure!(rel_close(mse, sq / nn, rel_sq + 4.0 * u), "tolerance", "{}: mean_sq_err = {:e}, exact sq_l2/n = {:e}", what, mse, sq / nn);
     ensure!(rel_close(rmse, (sq / nn).sqrt(), rel_sq / 2.0 + 4.0 * u), "tolerance", "{}: root_mean_sq_err = {:e}, exact sqrt(sq_l2/n) = {:e}", what, rmse, (sq / nn).sqrt());
-    if sq > 0.0 && maxv != 0.0 {
+    if sq > 0.0 && maxv != 0.0 && (maxv * maxv).is_finite() && maxv * maxv > f64::MIN_POSITIVE {
         let want = 10.0 * (maxv * maxv / (sq / nn)).log10();
         let tol = (10.0 / std::f64::consts::LN_10) * (rel_sq + 8.0 * u) + 8.0 * u * want.abs();
         ensure!((psnr - want).abs() <= tol, "tolerance", "{}: peak_signal_to_noise_ratio = {:e}, exact 10 log10(maxv^2/mse) = {:e} (allowed {:e})", what, psnr, want, tol);
@@ -450,6 +483,7 @@ macro_rules! dev_int {
         ensure!(d.l1 == conv(l1), "wrong-value", "l1_dist = {:?}, exact {} (a {:?}, b {:?})", d.l1, l1, c.a, c.b);
         ensure!(d.linf == conv(linf), "wrong-value", "linf_dist = {:?}, exact {} (a {:?}, b {:?})", d.linf, linf, c.a, c.b);
         derived_checks(n, sq as f64, l1 as f64, 0.0, 0.0, c.maxv as f64, (d.l2, d.mae, d.mse, d.rmse, d.psnr), "integer")?;
+        relation_checks(n, d.sq.to_f64().unwrap_or(f64::NAN), d.l1.to_f64().unwrap_or(f64::NAN), c.maxv as f64, (d.l2, d.mae, d.mse, d.rmse, d.psnr), "integer")?;
         // symmetry (exact) and d(a,a) = 0
         let r = dev_owned(&lb, &la, c.own_b, c.own_a, maxv.clone()).map_err(|e| Failure::new("error-kind", format!("{:?}", e)))?;
         ensure!(r.sq == d.sq && r.l1 == d.l1 && r.linf == d.linf && r.count_eq == d.count_eq, "wrong-value", "distances are not symmetric: d(a,b) = ({:?},{:?},{:?}), d(b,a) = ({:?},{:?},{:?})", d.sq, d.l1, d.linf, r.sq, r.l1, r.linf);
@@ -460,12 +494,21 @@ macro_rules! dev_int {
 }
 
 fn check_dev_f<F: Fl + Signed>(c: &DevCase) -> CheckResult {
-    let a: Vec<F> = c.a.iter().map(|&v| F::from_bits64(v as u64)).collect();
-    let b: Vec<F> = c.b.iter().map(|&v| F::from_bits64(v as u64)).collect();
+    let sc = F::from64(2f64.powi(if F::IS32 { c.scale_pow / 8 } else { c.scale_pow }));
+    let a: Vec<F> = c.a.iter().map(|&v| F::from_bits64(v as u64) * sc).collect();
+    let b: Vec<F> = c.b.iter().map(|&v| F::from_bits64(v as u64) * sc).collect();
     let n = a.len();
     let la = Laid::new(&c.layout_a, &c.shape, &a);
     let lb = Laid::new(&c.layout_b, &c.shape, &b);
-    let maxv = F::from64(c.maxv as f64);
+    let maxv = if c.maxv_mode == 1 {
+        // a peak right next to the r.m.s. error: PSNR near 0 dB at whatever scale the data have
+        let ms: f64 = a.iter().zip(&b).map(|(x, y)| (x.to64() - y.to64()).powi(2)).sum::<f64>() / n as f64;
+        let m = F::from64(ms.sqrt() * 1.0009765625);
+        if m.is_finite() && m > F::zero() { m } else { F::from64(c.maxv as f64) }
+    } else {
+        F::from64(c.maxv as f64)
+    };
+    let maxv_f64 = maxv.to64();
     let d = match catch(|| dev_owned(&la, &lb, c.own_a, c.own_b, maxv)) {
         Ok(Ok(d)) => d,
         Ok(Err(e)) => fail!("error-kind", "deviation routine returned {:?} for two non-empty arrays of equal shape {:?}", e, c.shape),
@@ -488,7 +531,8 @@ fn check_dev_f<F: Fl + Signed>(c: &DevCase) -> CheckResult {
     ensure!(close(d.l1.to64(), l1, g * l1 + F::TINY, F::U), "tolerance", "l1_dist = {:e}, exact {:e}, allowed error {:e} (a {:?}, b {:?})", d.l1, l1, g * l1, a, b);
     ensure!(close(d.linf.to64(), linf, 2.0 * F::U * linf + F::TINY, F::U), "tolerance", "linf_dist = {:e}, exact {:e} (a {:?}, b {:?})", d.linf, linf, a, b);
     // derived measures are functions of the routine's own base value converted to f64
-    derived_checks(n, sq, l1, g + 8.0 * F::U, g + 8.0 * F::U, c.maxv as f64, (d.l2, d.mae, d.mse, d.rmse, d.psnr), "float")?;
+    derived_checks(n, sq, l1, g + 8.0 * F::U, g + 8.0 * F::U, maxv_f64, (d.l2, d.mae, d.mse, d.rmse, d.psnr), "float")?;
+    relation_checks(n, d.sq.to64(), d.l1.to64(), maxv_f64, (d.l2, d.mae, d.mse, d.rmse, d.psnr), "float")?;
     let r = dev_owned(&lb, &la, c.own_b, c.own_a, maxv).map_err(|e| Failure::new("error-kind", format!("{:?}", e)))?;
     ensure!((r.sq.to64() - d.sq.to64()).abs() <= 2.0 * g * sq + F::TINY && (r.l1.to64() - d.l1.to64()).abs() <= 2.0 * g * l1 + F::TINY && (r.linf.to64() - d.linf.to64()).abs() <= 4.0 * F::U * linf + F::TINY, "tolerance", "distances are not symmetric up to roundoff");
     let z = dev_owned(&la, &la, c.own_a, c.own_b, maxv).map_err(|e| Failure::new("error-kind", format!("{:?}", e)))?;
@@ -569,16 +613,16 @@ fn dev_strategy() -> impl Strategy<Value = DevCase> {
                 DTy::F64 => prop_oneof![3 => 1i128..256, 1 => Just(100_000_000_000_000_000_000i128)].boxed(),
                 DTy::F32 => prop_oneof![3 => 1i128..256, 1 => Just(100_000_000_000_000_000_000i128)].boxed(),
             };
-            (Just((ty, shape, la, lb)), vals(n), vals(n), proptest::collection::vec(any::<bool>(), n), own(), own(), maxv)
+            (Just((ty, shape, la, lb)), vals(n), vals(n), proptest::collection::vec(any::<bool>(), n), own(), own(), maxv, prop_oneof![6 => Just(0i32), 1 => Just(300i32), 1 => Just(-300i32), 1 => Just(100i32), 1 => Just(-100i32)], prop_oneof![3 => Just(0u8), 1 => Just(1u8)])
         })
-        .prop_map(|((ty, shape, layout_a, layout_b), a, mut b, same, own_a, own_b, maxv)| {
+        .prop_map(|((ty, shape, layout_a, layout_b), a, mut b, same, own_a, own_b, maxv, scale_pow, maxv_mode)| {
             // make a share of the positions equal so count_eq is informative
             for (i, s) in same.iter().enumerate() {
                 if *s && i % 3 == 0 {
                     b[i] = a[i];
                 }
             }
-            DevCase { ty, shape, layout_a, layout_b, own_a, own_b, a, b, maxv }
+            DevCase { scale_pow, maxv_mode, ty, shape, layout_a, layout_b, own_a, own_b, a, b, maxv }
         })
 }
 
@@ -828,10 +872,18 @@ fn ent_strategy() -> impl Strategy<Value = EntCase> {
                 // tiny but non-zero (must still contribute: only an exact zero is skipped)
                 1 => (60i32..100, 1u32..64).prop_map(|(e, m)| m as f64 * 2f64.powi(-e)),
             ];
+            // whole-array classes: entries far below 1 (|ln p| in the hundreds), and q within 2^-20 of 1
+            let far = proptest::collection::vec((300i32..900, 1u32..4096), n).prop_map(|v| v.into_iter().map(|(e, m)| (1.0 + m as f64 / 4096.0) * 2f64.powi(-e)).collect::<Vec<f64>>());
+            let near_one = proptest::collection::vec(-64i32..65, n).prop_map(|v| v.into_iter().map(|k| 1.0 + k as f64 * 2f64.powi(-26)).collect::<Vec<f64>>());
             let with_nan = prop_oneof![40 => elem.clone(), 1 => Just(f64::NAN)];
-            (Just((f32_, shape, lp, lq, normalised)), proptest::collection::vec(with_nan.clone(), n), proptest::collection::vec(with_nan, n), 0u8..10)
+            let pvec = prop_oneof![8 => proptest::collection::vec(with_nan.clone(), n), 1 => far.clone()];
+            let qvec = prop_oneof![8 => proptest::collection::vec(with_nan, n), 1 => far, 2 => near_one];
+            (Just((f32_, shape, lp, lq, normalised)), pvec, qvec, 0u8..10)
         })
         .prop_map(|((f32_, shape, layout_p, layout_q, normalised), mut p, mut q, nan_roll)| {
+            // the far-from-1 and near-1 classes are not renormalised (that would destroy them)
+            let special = p.iter().chain(q.iter()).any(|x| x.is_finite() && *x != 0.0 && (*x < 1e-30 || (*x - 1.0).abs() <= 1e-5));
+            let normalised = normalised && !special;
             if nan_roll != 0 {
                 // most cases: no NaN at all
                 for x in p.iter_mut().chain(q.iter_mut()) {
@@ -852,7 +904,8 @@ fn ent_strategy() -> impl Strategy<Value = EntCase> {
             }
             let enc = |x: f64| -> u64 {
                 if f32_ {
-                    (x as f32).to_bits() as u64
+                    let y = if x != 0.0 && x.abs() < 1e-30 { x.abs().powf(0.1) } else { x };
+                    (y as f32).to_bits() as u64
                 } else {
                     x.to_bits()
                 }
